@@ -187,6 +187,11 @@ let run (kind : string) (f : string array) : string =
     let keys = if f.(3) = "~" then [] else List.map uh (split_on ',' f.(3)) in
     let got = range_iter rt lo hi keys in
     if got = [] then "~" else join "," (List.map h got)
+  | "RDR" ->
+    let rt = dtn f.(0) and lo = uh f.(1) and hi = uh f.(2) in
+    let keys = if f.(3) = "~" then [] else List.map uh (split_on ',' f.(3)) in
+    let got = range_iter_rev rt lo hi keys in
+    if got = [] then "~" else join "," (List.map h got)
   | "XK" ->
     let dt = dtn f.(0) and k = uh f.(1) and w = z_of_hex f.(2) in
     let tk = exp_encode_time_key dt k w and mk = exp_encode_meta_key dt k in
